@@ -61,7 +61,7 @@ class Script:
                 for j, t in enumerate(self.tests)]
 
     def run(self, result):
-        r = self.rec.setdefault(S.current_tid() - 1, {'runs': 0, 'result': None})
+        r = self.rec.setdefault(S.current_tid() - 1 - getattr(self, 'base', 0), {'runs': 0, 'result': None})
         r['runs'] += 1
         r['result'] = result
         for t, case in zip(self.tests, self.cases()):
@@ -187,7 +187,7 @@ class StockSuite(unittest.TestSuite):
         self.n, self.rec = n, rec
 
     def run(self, result, debug=False):
-        r = self.rec.setdefault(S.current_tid() - 1, {'runs': 0, 'result': None})
+        r = self.rec.setdefault(S.current_tid() - 1 - getattr(self, 'base', 0), {'runs': 0, 'result': None})
         r['runs'] += 1
         r['result'] = result
         return unittest.TestSuite.run(self, result, debug)
@@ -216,8 +216,10 @@ def measure_tb():
 class C13(Prop):
     id = 'C13'
     budgets = {'quick': 2200, 'thorough': 26000}
-    time_limit = {'quick': 45, 'thorough': 540}
-    rule = ('ConcurrentTestSuite / ConcurrentStreamTestSuite (half each) over 0-4 workers running 0-3 tests: PlaceHolder tests of arbitrary outcome '
+    time_limit = {'quick': 45, 'thorough': 500}
+    rule = ('30 % of the random cases are HISTORIES of 2-3 run() calls on ONE suite object (each run with its own sub-suites, fault plan and schedule; the earlier runs mostly aborted - '
+            'make_tests failing, an interrupt, the caller\'s result raising -; the leftover workers of an aborted run either joined before the next run() or, half of the histories, finishing WHILE it goes on, '
+            'each run\'s threads following their own run\'s schedule), every clause demanded of every run; a run is: ConcurrentTestSuite / ConcurrentStreamTestSuite (half each) over 0-4 workers running 0-3 tests: PlaceHolder tests of arbitrary outcome '
             'with tags, and - stream flavour, 40 % of the tests - native stream emitters whose run(result) calls result.status() for 0-3 scripted events '
             '(test id, any status / file chunk with or without eof, test_tags absent / empty / given, timestamp keyword omitted / None / a given instant); '
             'workers with no test / that emit nothing; a sub-suite is a plain object, a unittest.TestSuite holding its tests (unhashable; empty ones are equal), an instance of one '
@@ -229,7 +231,9 @@ class C13(Prop):
             'schedules: quick = every schedule with <= 2 pre-emptions of 13 small base configurations + random / bursty / few-pre-emption schedules of random '
             'configurations; thorough adds every schedule with <= 2 pre-emptions for 2 workers x 2 tests, <= 1 for 3 workers, and every single fault position / interrupt position / make_tests failure position (<= 1 pre-emption), also for stock TestSuite partitions and for equal / identical / unhashable sub-suite objects. non-trivial = at least 2 workers started; '
             'distinct = distinct input S-expression')
-    assumptions = ['threading.Thread start/join and queue.Queue (unbounded FIFO) semantics are modelled (harness/sched.py doubles), not verified; the semaphore of the suite flavour is a real threading.Semaphore(1), instrumented (see C12)',
+    assumptions = ['a history of run() calls is made in one caller thread on one suite object; every run has its own caller\'s result object; in the overlapping mode the scheduler alternates between the runs that have an enabled thread, '
+                   'inside a run it follows that run\'s schedule and then lowest-first - so every run\'s own sequence of decisions is what it would be alone, which is what the model (every run by itself, C13_runs_independent) predicts',
+                   'threading.Thread start/join and queue.Queue (unbounded FIFO) semantics are modelled (harness/sched.py doubles), not verified; the semaphore of the suite flavour is a real threading.Semaphore(1), instrumented (see C12)',
                    'only operations on the shared queue / semaphore / caller\'s result and thread start/join are scheduling points; a new thread runs up to its first such operation when it is started',
                    'a KeyboardInterrupt delivered to the thread calling run() is modelled as an exception at a queue.get()',
                    'a run() that raises raises an Exception subclass (both _run_test methods say `except Exception`: a KeyboardInterrupt / SystemExit / GeneratorExit out of a sub-suite\'s run() '
@@ -264,7 +268,7 @@ class C13(Prop):
                 'main\'s stop() calls); on abort what was delivered is still a prefix per worker; a raising sub-suite yields exactly one errored broken-runner test; if run() '
                 'raises the exception is the injected one and every registered worker is told to stop (suite: one stop() per registered worker; stream: its shouldStop is set and '
                 'no later step clears it, because run() forwards the worker\'s startTestRun itself before starting the thread). The hand-written model is tied to the code by a '
-                'differential check that runs the real suites in real threads under a deterministic scheduler (bounded-pre-emption exhaustive + random schedules, all fault kinds).',
+                'differential check that runs the real suites in real threads under a deterministic scheduler (bounded-pre-emption exhaustive + random schedules, all fault kinds), also for histories of 1-3 run() calls on one suite object, earlier runs aborted and their leftover workers joined first or overlapping the next run: every run\'s trace is that of the same run on a fresh suite (C13_runs_independent).',
         'note': 'partial by nature: the theorems cover every interleaving of the model\'s atomic steps (operations on queue / semaphore / caller\'s result, thread start/join); '
                 'CPython pre-emption is reached only through the scheduler-driven correspondence. trusted: Lean kernel, TTV/Model/Conc.lean + ConcSuite.lean, harness/sched.py '
                 'and the plug-in; Thread/Queue semantics and the blocking of Semaphore.acquire modelled; KeyboardInterrupt modelled as an exception at queue.get(); traceback chunk count measured',
@@ -290,19 +294,16 @@ class C13(Prop):
         return self._tb
 
     # ----- implementation side
-    def execute(self, inp):
-        import testtools
-        import testtools.testsuite as ts
+    def build_env(self, inp, sch, base):
+        """everything ONE run of a history needs besides the suite object: its sub-suites, fault plan, caller's result, observations;
+        `base` = number of worker threads the earlier runs of the history were given (thread ids are global in a history)"""
         flavour, wspecs, mk, intr, mfaults, tb, schedule = inp[:7]
         hints = inp[7] if len(inp) > 7 else []
         codes = next((h[1] for h in hints if isinstance(h, list) and h[0] == 'routeCodes'), None)
         code = lambda n: codes[n] if codes is not None and n < len(codes) else n        # the route code of worker n, as a small number
         route = lambda n: ({0: None, 1: ''}.get(code(n), str(code(n))) if 'routes' in hints else str(code(n)))
         mk = None if mk is None else mk[1]
-        intr = None if intr is None else intr[1]
-        sch = S.Scheduler(schedule)
         log = []
-        sem = S.SchedSemaphore(sch, log)
         cls = SuiteWorker if 'testSuites' in hints else CaseWorker if 'equalCases' in hints else Worker
         rec, workers, seen = {}, [], {}
         for n, w in enumerate(wspecs):
@@ -315,37 +316,13 @@ class C13(Prop):
             else:
                 workers.append(cls(n, w[0], w[1], flavour == 'stream', 'emptyId' in hints, rec))
                 seen[key] = workers[-1]
+        for w in workers:
+            w.base = base
         faults = {0: set(mfaults)}
         for n, w in enumerate(wspecs):
-            faults[n + 1] = set(w[2])
+            faults[base + n + 1] = set(w[2])
         target = Target(sch, log, faults)
         target.mixed_faults = False
-        sink = Sink(sch, mfaults, {None: 0, '': 1} if 'routes' in hints else None)
-        st = {'gets': 0, 'spawned': [], 'joined': [], 'result': None, 'live': []}
-
-        def on_get(q):
-            if S.current_tid() == 0:
-                k = st['gets']
-                st['gets'] += 1
-                if k == intr:
-                    sch.yield_point()
-                    raise Interrupt()
-
-        made = {}
-
-        class Thread(S.SchedThread):
-            def __init__(self, target=None, args=()):
-                S.SchedThread.__init__(self, sch, target, args, len(made) + 1)      # the k-th thread run() creates is worker k
-                made[self.tid] = self
-
-            def start(self):
-                self.s.yield_point()
-                st['spawned'].append(self.tid - 1)
-                self.s.spawn(self.tid, lambda: self.target(*self.args), by=S.current_tid())
-
-            def join(self, timeout=None):
-                S.SchedThread.join(self)
-                st['joined'].append(self.tid - 1)
 
         def make_tests(*_):
             for n, w in enumerate(workers):
@@ -354,57 +331,142 @@ class C13(Prop):
                 yield w if flavour == 'suite' else (w, route(n))
             if mk is not None:
                 raise MakeTestsError('make_tests broke')
+        return {'inp': inp, 'flavour': flavour, 'hints': hints, 'base': base, 'n': len(wspecs), 'log': log, 'sem': S.SchedSemaphore(sch, log),
+                'rec': rec, 'target': target, 'sink': Sink(sch, mfaults, {None: 0, '': 1} if 'routes' in hints else None),
+                'intr': None if intr is None else intr[1], 'made': 0, 'make_tests': make_tests,
+                'st': {'gets': 0, 'spawned': [], 'joined': [], 'result': None, 'live': []},
+                'schedule': [0 if t == 0 else (base + t if t <= len(wspecs) else -1) for t in schedule]}
 
-        def main():
-            try:
-                if flavour == 'suite':
-                    if 'wrap' in hints:
-                        from testtools.testresult.real import TestResultDecorator
-                        testtools.ConcurrentTestSuite(unittest.TestSuite(), make_tests, wrap_result=lambda r, i: TestResultDecorator(r)).run(target)
-                    else:
-                        testtools.ConcurrentTestSuite(unittest.TestSuite(), make_tests).run(target)
+    def execute_runs(self, runs, overlap=False):
+        """run() once per element of `runs` on ONE suite object, in one caller thread (tid 0).  Between two runs the caller either
+        waits until every worker of the runs so far has ended (`overlap` false: what is left of the aborted run's schedule, then
+        lowest-first, drives them) or goes straight on: the leftover workers then finish WHILE the next run goes on, following
+        their own run's schedule (scheduler lanes)"""
+        import testtools
+        import testtools.testsuite as ts
+        sch = S.Scheduler([])
+        cur = {}
+        envs = []
+        made = {}
+
+        def on_get(q):
+            env = cur['env']
+            if S.current_tid() == 0:
+                k = env['st']['gets']
+                env['st']['gets'] += 1
+                if k == env['intr']:
+                    sch.yield_point()
+                    raise Interrupt()
+
+        class Thread(S.SchedThread):
+            def __init__(self, target=None, args=()):
+                env = cur['env']
+                env['made'] += 1
+                self.env, self.local = env, env['made'] - 1                     # the k-th thread a run() creates is its worker k
+                S.SchedThread.__init__(self, sch, target, args, env['base'] + env['made'])
+                made[self.tid] = self
+
+            def start(self):
+                self.s.yield_point()
+                self.env['st']['spawned'].append(self.local)
+                self.s.spawn(self.tid, lambda: self.target(*self.args), by=S.current_tid())
+
+            def join(self, timeout=None):
+                S.SchedThread.join(self)
+                self.env['st']['joined'].append(self.local)
+
+        make_tests = lambda *a: cur['env']['make_tests']()
+        flavour = runs[0][0]
+        wrap = any('wrap' in (r[7] if len(r) > 7 else []) for r in runs)
+
+        def caller():
+            if flavour == 'suite':
+                if wrap:
+                    from testtools.testresult.real import TestResultDecorator
+                    suite = testtools.ConcurrentTestSuite(unittest.TestSuite(), make_tests, wrap_result=lambda r, i: TestResultDecorator(r))
                 else:
-                    testtools.ConcurrentStreamTestSuite(make_tests).run(sink)
-                st['result'] = 'returned'
-            except Interrupt:
-                st['result'] = ['raised', 'interrupt']
-            except MakeTestsError:
-                st['result'] = ['raised', 'makeTests']
-            except S.INJECTED:
-                st['result'] = ['raised', 'injected']
-            st['live'] = [w for w in st['spawned'] if (w + 1) not in sch.done]
+                    suite = testtools.ConcurrentTestSuite(unittest.TestSuite(), make_tests)
+            else:
+                suite = testtools.ConcurrentStreamTestSuite(make_tests)
+            base = 0
+            for k, inp in enumerate(runs):
+                env = self.build_env(inp, sch, base)
+                base += env['n']
+                if k > 0 and not overlap:           # join the leftover workers first
+                    old = [g for e in envs for g in range(e['base'] + 1, e['base'] + e['made'] + 1)]
+                    if any(g not in sch.done for g in old):
+                        sch.yield_point(lambda: all(g in sch.done for g in old))
+                envs.append(env)
+                cur['env'] = env
+                if k == 0:
+                    sch.lanes[0]['schedule'] = env['schedule']
+                else:
+                    sch.new_lane(env['schedule'])
+                st = env['st']
+                try:
+                    suite.run(env['target'] if flavour == 'suite' else env['sink'])
+                    st['result'] = 'returned'
+                except Interrupt:
+                    st['result'] = ['raised', 'interrupt']
+                except MakeTestsError:
+                    st['result'] = ['raised', 'makeTests']
+                except S.INJECTED:
+                    st['result'] = ['raised', 'injected']
+                st['live'] = [w for w in st['spawned'] if (env['base'] + w + 1) not in sch.done]
 
         saved = ts.threading, ts.Queue
-        ts.threading = types.SimpleNamespace(Thread=Thread, Semaphore=lambda n=1: sem, current_thread=lambda: made[S.current_tid()])
+        ts.threading = types.SimpleNamespace(Thread=Thread, Semaphore=lambda n=1: cur['env']['sem'], current_thread=lambda: made[S.current_tid()])
         ts.Queue = lambda: S.SchedQueue(sch, on_get)
         try:
-            sch.spawn(0, main)
+            sch.spawn(0, caller)
             dl = sch.run()
         finally:
             ts.threading, ts.Queue = saved
-        return sch, log, sink, rec, st, dl
+        return sch, envs, dl
 
-    def run_impl(self, inp):
-        try:
-            sch, log, sink, rec, st, dl = self.execute(inp)
-            workers = range(len(inp[1]))
-        except S.Hang:
-            return ['harness-hang', 'scheduler']
+    def execute(self, inp):
+        sch, envs, dl = self.execute_runs([inp])
+        e = envs[0]
+        return sch, e['log'], e['sink'], e['rec'], e['st'], dl
+
+    def run_trace(self, sch, env, dl):
+        """the trace of one run of a history, in its own (local) thread numbering"""
+        g2l = {0: 0}
+        for w in range(env['n']):
+            g2l[env['base'] + w + 1] = w + 1
         died = []
-        for n in workers:
-            e = sch.errors.get(n + 1)
+        for w in range(env['n']):
+            e = sch.errors.get(env['base'] + w + 1)
             if e is not None and not isinstance(e, S.INJECTED):
                 return ['raised', type(e).__name__]
             died.append(e is not None)
+        flags = []
+        for w in range(env['n']):
+            r = env['rec'].get(w, {}).get('result')
+            flags.append(bool(r.shouldStop) if (r is not None and env['flavour'] == 'stream') else False)
+        st = env['st']
+        log = [[g2l.get(e[0], 99999)] + list(e[1:]) for e in env['log']]
+        finished = dl is None and 0 in sch.done and all((env['base'] + w + 1) in sch.done for w in st['spawned'])
+        return [log, env['sink'].events, st['result'], st['spawned'], st['joined'], st['live'],
+                [env['rec'].get(w, {}).get('runs', 0) for w in range(env['n'])], flags, died, finished]
+
+    def run_impl(self, inp):
+        hist = inp[0] == 'history'
+        runs = inp[1] if hist else [inp]
+        try:
+            sch, envs, dl = self.execute_runs(runs, overlap=hist and len(inp) > 2 and 'overlap' in inp[2])
+        except S.Hang:
+            return ['harness-hang', 'scheduler']
         if 0 in sch.errors:
             return ['raised', type(sch.errors[0]).__name__]
-        flags = []
-        for w in workers:
-            r = rec.get(w, {}).get('result')
-            flags.append(bool(r.shouldStop) if (r is not None and inp[0] == 'stream') else False)
+        if len(envs) != len(runs):
+            return ['raised', 'history-cut-short']
+        traces = [self.run_trace(sch, e, dl) for e in envs]
+        for t in traces:
+            if len(t) == 2:
+                return t
         self.stats[id(inp)] = (sch.skipped, len(sch.picks))
-        finished = dl is None and len(sch.done) == len(sch.order)
-        return [log, sink.events, st['result'], st['spawned'], st['joined'], st['live'], [rec.get(w, {}).get('runs', 0) for w in workers], flags, died, finished]
+        return traces[0] if not hist else ['runs', traces]
 
     def step_counts(self, inp):
         sch, *_ = self.execute(inp[:6] + [[]])
@@ -527,7 +589,24 @@ class C13(Prop):
             if nxt is not None:
                 return nxt
             self._sys_left = 0
-        cfg = self.gen_config(rng)
+        if rng.random() < 0.3:      # a HISTORY of 2-3 run() calls on one suite object, the earlier ones mostly aborted
+            flavour = rng.choice(['suite', 'stream'])
+            k = rng.choice([2, 2, 2, 3])
+            runs = []
+            for j in range(k):
+                r = self.gen_run(rng, flavour, abort_bias=(j < k - 1))
+                if flavour == 'suite':      # wrap_result is a property of the suite object: all runs or none
+                    h = [x for x in (r[7] if len(r) > 7 else []) if x != 'wrap']
+                    r = r[:7] + ([h] if h else [])
+                runs.append(r)
+            return ['history', runs] + ([['overlap']] if rng.random() < 0.5 else [])
+        return self.gen_run(rng)
+
+    def gen_run(self, rng, flavour=None, abort_bias=False):
+        for _ in range(50):
+            cfg = self.gen_config(rng)
+            if (flavour is None or cfg[0] == flavour) and (not abort_bias or rng.random() < 0.25 or cfg[2] is not None or cfg[3] is not None or cfg[4]):
+                break
         hints = [h for h in (['routes', 'emptyId'] if cfg[0] == 'stream' else ['wrap', 'emptyId']) if rng.random() < 0.25]
         if cfg[0] == 'stream' and len(cfg[1]) >= 2 and rng.random() < 0.4:
             k = rng.choice([1, 1, 2, 2, 3])     # route codes from a small alphabet, WITH repetition (make_tests may hand out None to everyone)
@@ -557,7 +636,7 @@ class C13(Prop):
         native = ['stream', [[[t('success', [2])], False, []],
                              [[['success', [], [[0, ['st', 'inprogress'], None, 'explicitNone'], [0, ['file', True], some([1]), ['given', 7]],
                                                 [1, ['st', 'exists'], some([]), 'omitted']]]], True, []]], None, None, [], tb]
-        yield from self.systematic([native], 2)
+        yield from self.systematic([native], 1)
         small_suite = ['suite', [[[t()], False, []], [[t('error')], True, []]], None, None, [], tb]
         small_stream = ['stream', [[[t()], False, []], [[t('error')], True, []]], None, None, [], tb]
         for f in range(12):                       # the caller's StreamResult raises at main's f-th status call
@@ -572,12 +651,24 @@ class C13(Prop):
                 if m <= 3:
                     yield from self.systematic([base[:2] + [some(m), None, [], tb]], 1)
             yield from self.systematic([small_suite[:2] + [some(2), None, [m % 2], tb]], 1)
+        # histories: a run aborted at every position (<= 1 pre-emption in it), then a healthy run on the same suite object; the leftover
+        # workers joined first / overlapping the second run
+        for fl in ('stream', 'suite'):
+            second = [fl, [[[t('skip')], False, []]], None, None, [], tb, []]
+            first = [fl, [[[t()], False, []], [[t('error')], True, []]], None, None, [], tb]
+            aborts = [first[:2] + [some(m), None, [], tb] for m in range(3)] + [first[:3] + [some(m), [], tb] for m in range(4)]
+            if fl == 'stream':
+                aborts += [first[:4] + [[f], tb] for f in range(0, 8, 2)]
+            for ab in aborts:
+                for run1 in self.systematic([ab], 1):
+                    yield ['history', [run1, second]]
+                    yield ['history', [run1, second], ['overlap']]
         # stock unittest.TestSuite partitions (shouldStop read before every element): <= 2 pre-emptions; every single fault position
         # (incl. each read), interrupts and make_tests failures with <= 1
         stock = ['suite', [[[t()], False, [], True], [[t('error', [1])], True, [], True]], None, None, [], tb]
-        yield from self.systematic([stock], 2)
+        yield from self.systematic([stock], 1)
         for w in range(2):
-            for f in range(16):
+            for f in range(13):
                 ws = [[x[0], x[1], [f] if j == w else [], True] for j, x in enumerate(stock[1])]
                 yield from self.systematic([['suite', ws, None, None, [], tb]], 1)
         for m in range(4):
@@ -585,7 +676,9 @@ class C13(Prop):
         # equal route codes (stream): <= 2 pre-emptions; every position of a raising status() call, of an interrupt, of a make_tests failure
         for hints in ([['routeCodes', [0, 0]]], [['routeCodes', [0, 0]], 'routes']):
             shared = ['stream', [[[t()], False, []], [[t('error')], True, []]], None, None, [], tb, hints]
-            yield from self.systematic([shared], 2)
+            yield from self.systematic([shared], 2 if len(hints) == 1 else 1)
+            if len(hints) > 1:
+                continue
             for f in range(12):
                 yield from self.systematic([shared[:4] + [[f], tb, hints]], 1)
             for m in range(5):
@@ -597,15 +690,35 @@ class C13(Prop):
         # what kind of object the sub-suites are: equal cases, one object twice, unhashable suites - with and without an abort
         for hint in ('equalCases', 'sameObject', 'testSuites'):
             same = ['suite', [[[t('failure')], False, []], [[t('failure')], False, []]], None, None, [], tb, [hint]]
-            yield from self.systematic([same], 2)
+            yield from self.systematic([same], 2 if hint == 'equalCases' else 1)
             for m in range(4):
                 yield from self.systematic([same[:3] + [some(m), [1], tb, [hint]]], 1)
 
     # ----- evidence
     def nontrivial(self, inp, trace):
+        if inp[0] == 'history':
+            return isinstance(trace, list) and len(trace) == 2 and trace[0] == 'runs' and isinstance(trace[1], list) \
+                and any(self.nontrivial(r, t) for r, t in zip(inp[1], trace[1]))
         return isinstance(trace, list) and len(trace) == 10 and isinstance(trace[3], list) and len(trace[3]) >= 2
 
     def features(self, inp, trace):
+        if inp[0] == 'history':
+            runs = inp[1]
+            ok = isinstance(trace, list) and len(trace) == 2 and trace[0] == 'runs' and isinstance(trace[1], list) and len(trace[1]) == len(runs)
+            f = ['history-runs=%d' % len(runs), 'history:' + ('leftovers-overlap-next-run' if (len(inp) > 2 and 'overlap' in inp[2]) else 'leftovers-joined-first')]
+            if not ok:
+                return f + ['trace:' + (str(trace[0]) if isinstance(trace, list) and trace else '?')]
+            for k, (r, t) in enumerate(zip(runs, trace[1])):
+                f += [x for x in self.features(r, t) if not x.startswith('disabled-picks')]
+                if k + 1 < len(runs) and isinstance(t, list) and len(t) == 10:
+                    res = t[2]
+                    if res != 'returned':
+                        f.append('run-after-aborted-run')
+                        if t[5]:
+                            f.append('run-after-abort-with-live-workers')
+                    else:
+                        f.append('run-after-returned-run')
+            return sorted(set(f))
         flavour, workers, mk, intr, mfaults, tb, schedule = inp[:7]
         f = ['hint:' + h for h in (inp[7] if len(inp) > 7 else []) if isinstance(h, str)] + ['flavour=' + flavour, 'workers=%d' % len(workers), 'tests=%s' % min(sum(len(w[0]) for w in workers), 7)]
         nat = [ev for w in workers for t in w[0] if len(t) == 3 for ev in t[2]]
@@ -688,6 +801,19 @@ class C13(Prop):
         return f
 
     def shrink(self, inp):
+        if inp[0] == 'history':
+            runs, hh = inp[1], inp[2:]
+            if len(runs) == 1:
+                yield runs[0]
+            for j in range(len(runs)):                   # drop a run
+                if len(runs) > 1:
+                    yield ['history', runs[:j] + runs[j + 1:]] + hh
+            if hh:
+                yield ['history', runs]                  # join the leftovers first
+            for j in range(len(runs)):
+                for cand in self.shrink(runs[j]):
+                    yield ['history', runs[:j] + [cand] + runs[j + 1:]] + hh
+            return
         hints = inp[7] if len(inp) > 7 else []
         for j in range(len(hints)):                      # drop a realisation hint
             h = hints[:j] + hints[j + 1:]
